@@ -189,7 +189,7 @@ pub fn run(cfg: &Cfg, rep: &mut Rep) {
         }
     }
     let mut r = Rng::new(cfg.seed, 0x0300 + sh as u64);
-    let nrand = cfg.budget(4_000_000);
+    let nrand = cfg.budget(10_000_000);
     for k in 0..nrand {
         let ca = gen::rand_count(&mut r, &lat);
         let a = mk(ca);
